@@ -8,6 +8,9 @@ let init () =
   reg_ms "u.add"
     (two (fun a b -> out (fun r -> ok (res_u r)) (AddSub.uadd p (arg_u a) (arg_u b))))
     (two (fun a b -> out (fun r -> ok (res_u (Base.enc r))) (SpecAddSub.spec_uadd (v (arg_u a)) (v (arg_u b)))));
+  reg_ms "u.add_assign"
+    (two (fun a b -> out (fun r -> ok (res_u r)) (AddSub.uadd p (arg_u a) (arg_u b))))
+    (two (fun a b -> out (fun r -> ok (res_u (Base.enc r))) (SpecAddSub.spec_uadd (v (arg_u a)) (v (arg_u b)))));
   reg_ms "u.sub"
     (two (fun a b -> out (fun r -> ok (res_u r)) (AddSub.usub p (arg_u a) (arg_u b))))
     (two (fun a b -> out (fun r -> ok (res_u (Base.enc r))) (SpecAddSub.spec_usub (v (arg_u a)) (v (arg_u b)))));
